@@ -8,7 +8,7 @@ CHECK = {'title': 'hwmon entries bind to the device the user named, or fail clea
  'level': 'exploration',
  'technique': 'exhaustive enumeration of fake hwmon trees x chip enumeration orders x configuration entries through the real hwmon.GetChips + '
               'internal.InitializeObjects, compared with an independent reference binder (paths and values read through the bound objects)',
- 'rule': 'tree = 1..3 chips (4 in thorough); a chip exposes fan channels = any subset of {1,2,3} (fanN_input, pwmN, pwmN_enable) and temperatures '
+ 'rule': 'per tree additionally: the one-entry-per-chip configuration plus ONE entry naming a non-existing device (unknown platform / missing index) placed first or last: start-up must fail naming it. tree = 1..3 chips (4 in thorough); a chip exposes fan channels = any subset of {1,2,3} (fanN_input, pwmN, pwmN_enable) and temperatures '
          '1..3 each absent / with input / feature without input file. Trees: 1 chip: all 216 shapes; 2 chips: all 64 x all 64 fan/temp-input subsets '
          '(thorough: also the 152 no-input shapes of the named chip x 64); 3 chips: named chip all 64 shapes x the two others from a catalogue of 4 '
          '(thorough 8) shapes; 4 chips (thorough): named chip all 64 x others from the catalogue of 4. For every tree ALL permutations of the chip '
